@@ -687,6 +687,24 @@ func c02R5(c *Ctx, rule string) {
 	if nPush == 0 {
 		c.Undecided(rule, "heap.Push in streamBuffer.Write", c.atFn(f), "not found")
 	}
+	// a frame is refused (error return) only because it is stale: every error return is behind f.Seq < owed.
+	// Any other reason for refusing — a window on how far ahead a frame may be, a size cap — drops a frame that a
+	// correct peer may legitimately send (every number up to 2^64−1 is valid), and the stream stalls at that number.
+	for _, r := range returnsOf(f) {
+		if len(r.Results) != 2 || errIsNilAt(resultValue(r, 1), r) != "nonnil" {
+			continue
+		}
+		stale := false
+		for _, at := range AtomsAt(r) {
+			if at.Kind == "cmp" && at.Op == token.LSS && a.isNextLoad(at.Y) {
+				if fr := a.frameOfField(at.X, a.seq); fr != nil && fr == ssa.Value(f.Params[1]) {
+					stale = true
+				}
+			}
+		}
+		c.Check(stale, rule, "frames are refused only when stale: error return at "+strings.TrimPrefix(c.at(r), "internal/multiplex/"), c.at(r), "behind f.Seq < owed",
+			"this error return is not (only) behind 'f.Seq < owed': a frame that is not stale can be refused — its bytes are lost and everything after it stays parked")
+	}
 	// close verdicts
 	nClose := 0
 	for _, r := range returnsOf(f) {
